@@ -10,6 +10,9 @@ What the specification decides:
    reports and vetoes every raw access outside the array).  TLC validates each execution in full against
    CoreCycle, i.e. the specification predicts exactly which executions go out of range and where; the runner
    classifies each observed out-of-range access by cause (fetch with prpage # 0, fetch past 0x3FFFF, handler).
+2b/2c. The same for the handlers that index the block-repeat stack (many states per encoding, full stack included)
+   and for guest-programmed address translation on a full Teakra (sys_rec page/io programs: MMIO base, page
+   mode, x/y/z pages incl. non-existent ones, host accessors; SysTrace).
 3. Termination modes (FuzzTrace.tla): multi-cycle instruction soups and MMIO/DMA/AHBM write storms on a full
    Teakra; a run ends by Return, Unimplemented or AssertAbort; out-of-range attempts are named deviations;
    a Fault (signal, sanitizer abort, foreign exception) has no action.
@@ -25,6 +28,7 @@ import vlib
 
 FINISH = dict(rule='boundary address-formation cases on the specification (TLC); every first word from wild states validated '
                    'in full incl. out-of-range behaviour; fuzz runs under ASan+UBSan with termination modes checked by TLC')
+TABLE_FAMILY = ['bkrep', 'bkrep_r6', 'bkreprst', 'bkreprst_memsp', 'bkrepsto', 'bkrepsto_memsp', 'break_']
 KNOWN_OOB = {'oob:fetch_prpage', 'oob:fetch_past_end', 'oob:movpdw/Ax', 'oob:dma_cursor'}
 
 
@@ -63,6 +67,22 @@ def run(ck):
             elif '"e":"Fault"' in ln:
                 seen.setdefault('fault:' + json.loads(ln).get('kind', '?'), (f, n_))
     ck.sample_lines(files[7], 1, skip=9)
+    # 2b. handlers that index fixed-size tables (the four-entry block-repeat stack, its store/restore, break) with
+    #     many states per encoding: a full stack (bcn = 4) is one state in sixteen
+    from props import isa_common, sys_common
+    isa_common.family_check(ck, TABLE_FAMILY, ck.pick(24, 96), 'c18tab', parts=8)
+    # 2c. guest-programmed address translation on a full Teakra: programs that move the MMIO window, switch the page
+    #     mode and set x/y/z pages (also to pages that do not exist), and host accessors doing the same between
+    #     slices; every out-of-range page must end in the emulator's assertion, everything else must touch exactly
+    #     the cell System.tla predicts (the memory hook vetoes and reports anything outside the array)
+    ck.build('sys_rec')
+    pfiles = sys_common.record(ck, ck.pick(8, 24), ck.pick(8, 16), tag='page', mode='page', seedoff=900)
+    pfiles += sys_common.record(ck, ck.pick(4, 12), ck.pick(4, 10), tag='pio', mode='io', seedoff=1300)
+    sys_common.validate(ck, pfiles)
+    for f in pfiles:
+        for n_, ln in enumerate(open(f), 1):
+            if '"out":"oob"' in ln:
+                seen.setdefault('oob:system', (f, n_))
     # 3. fuzz runs under the sanitizers
     fz = []
     cmds = []
@@ -119,6 +139,8 @@ def replay(ck, path):
     p = path.split('#')[0]
     if 'fuzz_' in os.path.basename(p):
         ck.validate_traces('MC_Fuzz', 'Trace_Fuzz.cfg', [p])
+    elif os.path.basename(p).startswith(('page_', 'pio_')):
+        ck.validate_traces('SysTrace', 'Trace_Sys.cfg', [p])
     elif p.endswith('.ndjson'):
         ck.validate_traces('IsaTrace', 'Trace_Isa.cfg', [p])
     else:
